@@ -626,6 +626,11 @@ func runCheck(ctx *Ctx) int {
 	// ---- extras (own machinery per property)
 	extraNotes := map[string]string{}
 	runExtras := func() {
+		if os.Getenv("VERIF_NO_EXTRAS") != "" {
+			// second attempt after an Extra killed the process (see ./check): the generated
+			// stream alone must still be able to name the failing input
+			return
+		}
 		extras := append([]Extra{}, p.Extras...)
 		for _, h := range ExtraHooks {
 			extras = append(extras, h(p, verif)...)
